@@ -59,6 +59,13 @@ Proof.
 Qed.
 Print Assumptions C03_no_handoff_to_dead_runners_between_runs.
 
+(* nothing is lost and nothing is duplicated: at every moment every registration of a payload is accounted for
+   exactly once - queued, being flushed, decided for hand-over, handed over, or (never, see above) raised *)
+Theorem C03_registrations_conserved :
+  forall lc p ls s, lifecycle_of registry_irs = Some lc -> grun lc sys0 ls = Some s -> tracked p s = nreg p ls.
+Proof. intros lc p ls s _. apply R_conservation. Qed.
+Print Assumptions C03_registrations_conserved.
+
 (* the same statements are FALSE of the earlier life cycles (kept as the record of two repaired defects):
    the pinned snapshot handed payloads to dead runners after a graceful stop (fixed: 23740f1) ... *)
 Theorem C03_snapshot_handoff_to_dead_runners_refuted :
